@@ -228,7 +228,7 @@ func c10Server(r *Rng) string {
 
 func c10Gen(g *Gen) {
 	r := g.Rng
-	n := g.N(2500, 150000)
+	n := g.N(4000, 150000)
 	for i := 0; i < n; i++ {
 		var lines []string
 		sv := c10Server(r)
